@@ -354,6 +354,9 @@ fn candidates(c: &Case) -> Vec<Case> {
     if c.reader_style != 0 {
         push(&|d| d.reader_style = 0);
     }
+    if c.writer_style != 0 {
+        push(&|d| d.writer_style = 0);
+    }
     // scenario integers towards 0
     for i in 0..c.n.len() {
         if c.n[i] != 0 {
